@@ -319,6 +319,20 @@ def scratch_facts():
     return init_decommits, drop_decommits
 
 
+def wasm_wiring():
+    """(init capacity, events) of wasm/src/lib.rs run_source."""
+    wasm = strip(read("wasm/src/lib.rs"))
+    _, wbody = fn_body(wasm, "run_source")
+    m = re.search(r"arena::init\(\s*([^)]+)\)", wbody)
+    if not m:
+        raise TranslatorError("wasm: arena::init(..) not found in run_source")
+    wasm_cap = const_expr(m.group(1))
+    if wbody.find("arena::init") > wbody.find("scratch_arena("):
+        raise TranslatorError("wasm: scratch_arena is called before arena::init")
+    wev, _ = pipeline_script(wbody, {}, "wasm run_source")
+    return wasm_cap, wev
+
+
 def generate():
     L = []
     A = L.append
@@ -388,15 +402,7 @@ def generate():
     A("")
 
     # ---- wasm
-    wasm = strip(read("wasm/src/lib.rs"))
-    _, wbody = fn_body(wasm, "run_source")
-    m = re.search(r"arena::init\(\s*([^)]+)\)", wbody)
-    if not m:
-        raise TranslatorError("wasm: arena::init(..) not found in run_source")
-    wasm_cap = const_expr(m.group(1))
-    if wbody.find("arena::init") > wbody.find("scratch_arena("):
-        raise TranslatorError("wasm: scratch_arena is called before arena::init")
-    wev, _ = pipeline_script(wbody, {}, "wasm run_source")
+    wasm_cap, wev = wasm_wiring()
     A("(* wasm/src/lib.rs run_source: init(capacity) at the start of every call, then *)")
     A("Definition wasm_capacity : Z := %d." % wasm_cap)
     A("Definition wasm_script : list wev :=\n  [%s]." % ";\n   ".join(wev))
